@@ -128,6 +128,9 @@ type Case struct {
 	Mode string `json:"mode,omitempty"`
 	// Indent is PlanOptions.Indent of the plan (violations) / of the Planner (reuse).
 	Indent string `json:"indent,omitempty"`
+	// Bound is the schema the planning driver's connection is bound to ("" = the connection-less
+	// DefaultPlan); see bound.go.
+	Bound string `json:"bound,omitempty"`
 }
 
 func init() {
@@ -438,6 +441,7 @@ type planResult struct {
 	Panic  string
 	Stack  string
 	NoPlan bool
+	Setup  string // the planning driver could not be obtained (check broken, not a verdict)
 }
 
 func (r *planResult) text() string {
@@ -451,8 +455,17 @@ func (r *planResult) text() string {
 	return b.String()
 }
 
-func doPlan(d string, changes []schema.Change, qual, mode, indent string) *planResult {
+func doPlan(d string, changes []schema.Change, qual, mode, indent, bound string) *planResult {
 	res := &planResult{}
+	var pa migrate.PlanApplier = planner(d)
+	if bound != "" {
+		drv, err := boundDriver(d, bound)
+		if err != nil {
+			res.Setup = err.Error()
+			return res
+		}
+		pa = drv
+	}
 	var opts []migrate.PlanOption
 	if indent != "" {
 		opts = append(opts, func(o *migrate.PlanOptions) { o.Indent = indent })
@@ -469,7 +482,7 @@ func doPlan(d string, changes []schema.Change, qual, mode, indent string) *planR
 	}
 	var plan *migrate.Plan
 	var err error
-	if p, val, st := rt.Try(func() { plan, err = planner(d).PlanChanges(context.Background(), "c16", changes, opts...) }); p {
+	if p, val, st := rt.Try(func() { plan, err = pa.PlanChanges(context.Background(), "c16", changes, opts...) }); p {
 		res.Panic, res.Stack = fmt.Sprint(val), st
 		return res
 	}
@@ -724,23 +737,29 @@ func runCase(a *acct, cs Case, verbose bool) {
 	}
 	// every plan is made without indentation and with PlanOptions.Indent = two blanks (what the CLI always
 	// passes); with a tab in the default mode.
-	type modeIndent struct{ mode, indent string }
+	// In the default and the deferred mode also on the connected driver of a URL bound to a schema: one named
+	// like the custom qualifier (≠ the planned schema; = the requested custom qualifier), and, default mode,
+	// one named like the planned schema.
+	type modeIndent struct{ mode, indent, bound string }
 	var combos []modeIndent
 	for _, mode := range ms {
 		if cs.Mode != "" {
-			combos = append(combos, modeIndent{mode, cs.Indent})
+			combos = append(combos, modeIndent{mode, cs.Indent, cs.Bound})
 			continue
 		}
-		combos = append(combos, modeIndent{mode, ""}, modeIndent{mode, "  "})
+		combos = append(combos, modeIndent{mode, "", ""}, modeIndent{mode, "  ", ""})
 		if mode == "unset" {
-			combos = append(combos, modeIndent{mode, "\t"})
+			combos = append(combos, modeIndent{mode, "\t", ""}, modeIndent{mode, "", marker})
+		}
+		if mode == "unset" || mode == "deferred" {
+			combos = append(combos, modeIndent{mode, "", customQ}, modeIndent{mode, "  ", customQ})
 		}
 	}
 	for _, mi := range combos {
-		mode, indent := mi.mode, mi.indent
+		mode, indent, bound := mi.mode, mi.indent, mi.bound
 		var nilRes *planResult
 		for _, qual := range qs {
-			if strings.Contains(qual, ":") && (mode != "unset" && mode != "deferred" || indent == "\t") && cs.Mode == "" {
+			if strings.Contains(qual, ":") && (mode != "unset" && mode != "deferred" || indent == "\t" || bound != "") && cs.Mode == "" {
 				continue // hostile qualifiers: two modes are enough (the mode only matters to the scope check)
 			}
 			changes, u, err := p.fresh()
@@ -774,7 +793,18 @@ func runCase(a *acct, cs Case, verbose bool) {
 				count("empty-changeset:"+cs.Dialect, 1)
 				continue
 			}
-			res := doPlan(cs.Dialect, changes, qual, mode, indent)
+			res := doPlan(cs.Dialect, changes, qual, mode, indent, bound)
+			if res.Setup != "" {
+				c.Inconclusive("bound-driver")
+				if a.get("setup-info") < 3 {
+					a.local.add("setup-info", 1)
+					fmt.Fprintln(os.Stderr, "c16: connected driver:", res.Setup)
+				}
+				continue
+			}
+			if bound != "" {
+				count("bound-plan:"+cs.Dialect+":"+qbase(qual)+":"+map[bool]string{true: "same-as-planned-schema", false: "same-as-custom-qualifier"}[bound == marker], 1)
+			}
 			if indent != "" {
 				count("indented-plan:"+cs.Dialect+":"+qbase(qual), 1)
 			}
@@ -787,7 +817,7 @@ func runCase(a *acct, cs Case, verbose bool) {
 			stats := &refStats{Heads: map[string]int{}}
 			v := judge(cs.Dialect, qual, mode, m, u, res, nilRes, stats)
 			if verbose {
-				fmt.Printf("--- %s qualifier=%s mode=%s indent=%q schemas=%v kinds=%v\n%s", cs.Dialect, qual, mode, indent, m.Schemas, m.Kinds, res.text())
+				fmt.Printf("--- %s qualifier=%s mode=%s indent=%q connection-bound-to=%q schemas=%v kinds=%v\n%s", cs.Dialect, qual, mode, indent, bound, m.Schemas, m.Kinds, res.text())
 			}
 			// evidence
 			txt := res.text()
@@ -836,7 +866,7 @@ func runCase(a *acct, cs Case, verbose bool) {
 				}
 			}
 			one := cs
-			one.Qual, one.Mode, one.Indent = qual, mode, indent
+			one.Qual, one.Mode, one.Indent, one.Bound = qual, mode, indent, bound
 			for _, x := range v.viol {
 				c.Violation(x.key, x.what, one, x.detail)
 				if verbose {
@@ -905,6 +935,10 @@ func run(c *rt.Ctx) {
 			ok = false
 		}
 		for _, q := range quals {
+			if a.get("bound-plan:"+d+":"+q+":same-as-custom-qualifier") < 500 || a.get("bound-plan:"+d+":"+q+":same-as-planned-schema") < 200 {
+				fmt.Fprintf(os.Stderr, "c16: too few plans on a schema-bound connected driver observed for %s/%s\n", d, q)
+				ok = false
+			}
 			if a.get("indented-plan:"+d+":"+q) < 1000 {
 				fmt.Fprintf(os.Stderr, "c16: too few plans with PlanOptions.Indent observed for %s/%s\n", d, q)
 				ok = false
@@ -926,6 +960,6 @@ func run(c *rt.Ctx) {
 	for k, v := range a.matrix.m {
 		full[k] = v
 	}
-	c.Finish("every Plan.Changes[i].Cmd and every reverse statement of mysql/postgres DefaultPlan.PlanChanges, on change sets of the real differs (shared dmodel pool: create-all, drop-all, exhaustive single-edit neighbourhood in both directions, seeded walks; the monitor's own flag-built family with enums, enum arrays, serial/identity, index comments, sibling/self FKs; realm diffs over two schemas; hand-assembled two-schema / Add-Drop-ModifySchema / rename sets, the two-schema sets and realm diffs again over pairs of schema names that differ only in letter case (ASCII, Latin-1, KELVIN SIGN, LONG S), Unicode normal form, a suffix, the last character or a trailing blank; HCL documents; and sequences of Plan / PlanSchema / Checkpoint / CheckpointSchema (+ WritePlan / WriteCheckpoint) on ONE migrate.Planner over the real differ and planner — all ordered pairs of 12 calls, longer fixed orders, seeded sequences — every result judged by the same rules under the qualifier and mode the Planner was constructed with and compared with the same call on an unused Planner), qualifier ∈ {nil, \"\", custom_q} × mode ∈ {unset, in-place, deferred, dump, unsorted dump} × PlanOptions.Indent ∈ {none, two blanks; tab in the default mode}, tokenized by the monitor's lexer: \"\" ⇒ schema marker absent from the text, no CREATE/DROP/ALTER SCHEMA|DATABASE / COMMENT ON SCHEMA, references unqualified, multi-schema / AddSchema / DropSchema / ModifySchema(mode unset|deferred) sets rejected; custom ⇒ every table / enum type / top-level index reference written custom_q.name and marker absent; nil ⇒ every such reference written schema.name; a one-schema set planned with nil must not be rejected with \"\"/custom. ModifySchema in place = out_of_domain. distinct = distinct (dialect, qualifier, plan text incl. reverse statements); non-trivial = at least one statement",
+	c.Finish("every Plan.Changes[i].Cmd and every reverse statement of mysql/postgres DefaultPlan.PlanChanges, on change sets of the real differs (shared dmodel pool: create-all, drop-all, exhaustive single-edit neighbourhood in both directions, seeded walks; the monitor's own flag-built family with enums, enum arrays, serial/identity, index comments, sibling/self FKs; realm diffs over two schemas; hand-assembled two-schema / Add-Drop-ModifySchema / rename sets, the two-schema sets and realm diffs again over pairs of schema names that differ only in letter case (ASCII, Latin-1, KELVIN SIGN, LONG S), Unicode normal form, a suffix, the last character or a trailing blank; HCL documents; and sequences of Plan / PlanSchema / Checkpoint / CheckpointSchema (+ WritePlan / WriteCheckpoint) on ONE migrate.Planner over the real differ and planner — all ordered pairs of 12 calls, longer fixed orders, seeded sequences — every result judged by the same rules under the qualifier and mode the Planner was constructed with and compared with the same call on an unused Planner), qualifier ∈ {nil, \"\", custom_q} × mode ∈ {unset, in-place, deferred, dump, unsorted dump} × PlanOptions.Indent ∈ {none, two blanks; tab in the default mode}, on the connection-less DefaultPlan and (default / deferred mode) on the real connected MySQL 8 / PostgreSQL 15 driver obtained through sqlclient.Open from a URL bound to a schema named like the custom qualifier or like the planned schema (database/sql \"server\" answering the version query only), tokenized by the monitor's lexer: \"\" ⇒ schema marker absent from the text, no CREATE/DROP/ALTER SCHEMA|DATABASE / COMMENT ON SCHEMA, references unqualified, multi-schema / AddSchema / DropSchema / ModifySchema(mode unset|deferred) sets rejected; custom ⇒ every table / enum type / top-level index reference written custom_q.name and marker absent; nil ⇒ every such reference written schema.name; a one-schema set planned with nil must not be rejected with \"\"/custom. ModifySchema in place = out_of_domain. distinct = distinct (dialect, qualifier, plan text incl. reverse statements); non-trivial = at least one statement",
 		map[string]any{"matrix_dialect_qualifier_mode_kind": full, "scenarios": len(cases), "marker": marker, "qualifier": customQ})
 }
